@@ -194,7 +194,61 @@ def http_chain(repo, known):
     if not body or not isinstance(body[-1], ast.Return) or not isinstance(body[-1].value, ast.Name):
         raise TranslateError('fault_to_http_response_code: last statement is not `return HTTP_nnn`')
     default = http_number(body[-1].value.id)
-    for st in body[:-1]:
+    def pairs_of(v):
+        """((Class, HTTP_nnn), ...) as a tuple or list literal of 2-element tuple/list literals of names"""
+        if not isinstance(v, (ast.Tuple, ast.List)):
+            return None
+        out = []
+        for el in v.elts:
+            if not (isinstance(el, (ast.Tuple, ast.List)) and len(el.elts) == 2
+                    and all(isinstance(x, ast.Name) for x in el.elts)):
+                return None
+            out.append((el.elts[0].id, el.elts[1].id))
+        return out
+
+    def loop_chain(st, tables):
+        """`for c, s in <table>: if isinstance(fault, c): return s`  ==  the chain of
+        `if isinstance(fault, C_i): return S_i` in table order (the body has no other effect and the
+        first match returns)"""
+        if not (isinstance(st.target, ast.Tuple) and len(st.target.elts) == 2
+                and all(isinstance(x, ast.Name) for x in st.target.elts)) or st.orelse:
+            return None
+        c, sname = st.target.elts[0].id, st.target.elts[1].id
+        if c == sname or 'fault' in (c, sname) or 'self' in (c, sname):
+            return None
+        if not (len(st.body) == 1 and isinstance(st.body[0], ast.If) and not st.body[0].orelse
+                and is_isinstance_fault(st.body[0].test) == c and len(st.body[0].body) == 1
+                and isinstance(st.body[0].body[0], ast.Return) and isinstance(st.body[0].body[0].value, ast.Name)
+                and st.body[0].body[0].value.id == sname):
+            return None
+        if isinstance(st.iter, ast.Name):
+            return tables.get(st.iter.id)
+        return pairs_of(st.iter)
+
+    tables = {}
+    for i, st in enumerate(body[:-1]):
+        if isinstance(st, ast.Assign) and len(st.targets) == 1 and isinstance(st.targets[0], ast.Name) \
+                and st.targets[0].id not in ('fault', 'self') and pairs_of(st.value) is not None:
+            # a local table; it must be bound once and only read by a later loop
+            name = st.targets[0].id
+            if any(binds(o, name) for o in body if o is not st) or name in tables:
+                raise TranslateError('fault_to_http_response_code: table %s is bound more than once' % name)
+            for o in body[:i]:
+                if any(isinstance(n, ast.Name) and n.id == name for n in ast.walk(o)):
+                    raise TranslateError('fault_to_http_response_code: table %s is read before it is bound' % name)
+            tables[name] = pairs_of(st.value)
+            continue
+        if isinstance(st, ast.For):
+            prs = loop_chain(st, tables)
+            if prs is None:
+                raise TranslateError('fault_to_http_response_code: unrecognised loop')
+            if client is not None:
+                raise TranslateError('isinstance test after the Client test: order not modelled')
+            for c, sname in prs:
+                if c not in known:
+                    raise TranslateError('isinstance against unknown class %s' % c)
+                chain.append((c, http_number(sname)))
+            continue
         if not isinstance(st, ast.If) or st.orelse:
             raise TranslateError('fault_to_http_response_code: expected a plain `if` chain')
         status = http_number(single_return_name(st.body, 'fault_to_http_response_code'))
@@ -261,6 +315,71 @@ def fault_string_fn(tree):
     raise TranslateError('get_fault_string_from_exception: unmodelled return expression %s' % ast.dump(v)[:120])
 
 
+def binds(node, name):
+    """does `node` (re)bind the local `name` in any way? (assignment targets of every kind)"""
+    for n in ast.walk(node):
+        if isinstance(n, ast.Name) and n.id == name and isinstance(n.ctx, (ast.Store, ast.Del)):
+            return True
+        if isinstance(n, (ast.Global, ast.Nonlocal)) and name in n.names:
+            return True
+        if isinstance(n, ast.ExceptHandler) and n.name == name:
+            return True
+        if isinstance(n, (ast.Import, ast.ImportFrom)) and any((a.asname or a.name.split('.')[0]) == name for a in n.names):
+            return True
+        if isinstance(n, (ast.FunctionDef, ast.ClassDef)) and n.name == name:
+            return True
+    return False
+
+
+def resolve_temps(body, upto, expr, keep, what, depth=0):
+    """`expr` is evaluated by the top-level statement `upto` of the straight-line block `body`.
+    A local name it reads that the block binds exactly once, by a plain top-level `name = value`
+    before `upto`, is replaced by that value (`x = f(e); out = F(x)` == `out = F(f(e))`: nothing
+    that runs in between can change what `value` denotes for the shapes accepted afterwards — a
+    constant or the fault-string call on the caught exception).  Names in `keep` (the caught
+    exception) are never replaced.  Anything else that binds the name: fail closed."""
+    if depth > 8:
+        raise TranslateError('%s: temporaries nested too deeply' % what)
+    idx = body.index(upto)
+
+    class Sub(ast.NodeTransformer):
+        def visit_Name(self, n):
+            if not isinstance(n.ctx, ast.Load) or n.id in keep:
+                return n
+            binders = [(i, st) for i, st in enumerate(body) if binds(st, n.id)]
+            if not binders:
+                return n                      # a global / builtin: left as it is
+            if len(binders) != 1:
+                raise TranslateError('%s: local %s is bound more than once' % (what, n.id))
+            i, st = binders[0]
+            if not (i < idx and isinstance(st, ast.Assign) and len(st.targets) == 1 and
+                    isinstance(st.targets[0], ast.Name) and st.targets[0].id == n.id):
+                raise TranslateError('%s: local %s is not a plain temporary assigned before its use' % (what, n.id))
+            return resolve_temps(body, st, st.value, keep, what, depth + 1)
+    import copy
+    return Sub().visit(copy.deepcopy(expr))
+
+
+def is_temp_assign(st, reserved):
+    """a plain `name = value` binding a local that is not one of `reserved`"""
+    return isinstance(st, ast.Assign) and len(st.targets) == 1 and isinstance(st.targets[0], ast.Name) \
+        and st.targets[0].id not in reserved
+
+
+def out_error_assignments_resolved(body, keep, what, target=('ctx', 'out_error')):
+    """top-level `ctx.out_error = <expr>` statements of a handler body, temporaries resolved; an
+    assignment to it anywhere deeper is not modelled"""
+    found = []
+    for st in body:
+        top = isinstance(st, ast.Assign) and len(st.targets) == 1 and attr_chain(st.targets[0]) == list(target)
+        for n in ast.walk(st):
+            if isinstance(n, ast.Assign) and any(attr_chain(t) == list(target) for t in n.targets) and not (top and n is st):
+                raise TranslateError('%s: %s is assigned in a nested statement' % (what, '.'.join(target)))
+        if top:
+            found.append(resolve_temps(body, st, st.value, keep, what))
+    return found
+
+
 def out_error_assignments(stmts):
     """all `ctx.out_error = <expr>` in the statements, not descending into nested handlers"""
     found = []
@@ -324,13 +443,15 @@ def funnel(tree):
             h2 = t2.handlers[0]
             if not isinstance(h2.type, ast.Name) or h2.type.id != 'Exception' or not h2.name:
                 raise TranslateError('process_request: unmodelled inner handler of Redirect')
-            asg = out_error_assignments(h2.body)
+            asg = out_error_assignments_resolved(h2.body, (h2.name,), 'process_request/Redirect')
             code = new_fault_expr(asg[0], h2.name) if len(asg) == 1 else None
             if code is None:
                 raise TranslateError('process_request: unmodelled out_error in the Redirect handler')
             handlers.append(('HRedirect', '(HENew %s)' % gtext(code)))
             continue
-        asg = out_error_assignments(h.body)
+        if binds(ast.Module(body=h.body, type_ignores=[]), h.name):
+            raise TranslateError('process_request: the caught exception is re-bound in except %s' % h.type.id)
+        asg = out_error_assignments_resolved(h.body, (h.name,), 'process_request/except %s' % h.type.id)
         if not asg:
             handlers.append(('H' + h.type.id, 'HENothing'))
         elif len(asg) == 1 and isinstance(asg[0], ast.Name) and asg[0].id == h.name:
@@ -415,7 +536,9 @@ def wsgi_handler(h, what):
                 raise TranslateError('%s: unmodelled assignment' % what)
             tg = attr_chain(st.targets[0])
             if tg == ['p_ctx', 'out_error']:
-                asg.append(st.value)
+                asg.append(resolve_temps(h.body, st, st.value, (h.name,), what))
+            elif is_temp_assign(st, (h.name, 'p_ctx', 'self', 'others', 'start_response')):
+                pass                      # a temporary: only matters through resolve_temps
             elif tg == [h.name]:
                 raise TranslateError('%s: the caught exception is re-bound unconditionally' % what)
             elif tg not in (['p_ctx', 'out_document'], ['p_ctx', 'out_string']):
